@@ -169,7 +169,7 @@ impl RawLexiconEntry {
 //@  rw R15 1 custom
 //@  | <W: Write>
 //@  > <W: VWrite>
-//@  rw R13 1 custom
+//@  rw R13 * custom
 //@  | u16w\.write\(w, &self\.headword\(\)\)
 //@  > u16w.write(w, self.headword())
 //@  rw R13b 1 custom
